@@ -12,14 +12,26 @@ EXTENDS Tzif
 (*   local-<unique|gap|overlap> / <position> [...] [/trunc-sensitive]                                     *)
 MaxS(S) == CHOOSE x \in S : \A y \in S : y <= x
 MinS(S) == CHOOSE x \in S : \A y \in S : x <= y
-\* rule position, refined: within a calendar month (UTC, give or take a day) of one of the two rule transitions, or elsewhere
-RuleMonth(F, t) == IF F.start.k = "M" /\ F.end.k = "M"
+\* rule position, refined: within a calendar month (UTC, give or take a day) of one of the two rule transitions, or elsewhere;
+\* for footers with Jn / n day rules, rule times outside the day or offsets beyond +-14 h: within 31 days of a rule transition
+MOnly(F) == F.start.k = "M" /\ F.end.k = "M"
+\* rule times outside the day (Mm.w.d/-1, /26, ... /167) move the transition out of the rule's day, even out of its month
+OddTime(F) == F.start.t \notin 0..86400 \/ F.end.t \notin 0..86400
+\* offsets beyond those of real zones (-12 h .. +14 h): the UTC day can be two days away from the local day
+BigOff(F) == F.std \notin -50400..50400 \/ F.dst \notin -50400..50400
+RuleMonth(F, t) == IF MOnly(F) /\ ~OddTime(F) /\ ~BigOff(F)
                    THEN (IF {CivilFromDays(t.d + j).m : j \in {-1, 0, 1}} \cap {F.start.m, F.end.m} # {}
                          THEN "/transition-month" ELSE "/other-month")
-                   ELSE ""
-FooterCls(F, t) == RuleShape(F) \o (IF F.kind = "rule"
-                                    THEN "/" \o RulePos(F, t) \o (IF RulePos(F, t) \in {"in-dst", "in-std"} THEN RuleMonth(F, t) ELSE "")
-                                    ELSE "")
+                   ELSE (IF \E e \in RuleEvents(F, YearOf(t)) : e.at.d - t.d \in -31..31
+                         THEN "/transition-month" ELSE "/other-month")
+\* the day kinds of a rule footer: nothing for Mm.w.d rules on both sides (all real zones), otherwise a tag
+RuleKindTag(F) == IF F.kind # "rule" \/ MOnly(F) THEN ""
+                  ELSE IF F.start.k = F.end.k THEN "/rule-" \o F.start.k
+                  ELSE "/rule-mixed"
+FooterCls(F, t) == RuleShape(F) \o RuleKindTag(F)
+                   \o (IF F.kind = "rule"
+                       THEN "/" \o RulePos(F, t) \o (IF RulePos(F, t) \in {"in-dst", "in-std"} THEN RuleMonth(F, t) ELSE "")
+                       ELSE "")
 OffsetCls(Z, t, ns) ==
   LET pos == PosClass(Z, t)  i == Idx(Z, t) IN
   "offset/" \o pos
@@ -34,16 +46,27 @@ LocalPos(Z, L) ==
       near == {i \in 1..NT(Z) : Le(Shift(lo, -1), Pt(Z.trans[i])) /\ Le(Pt(Z.trans[i]), Shift(hi, 1))}
       F == Z.footer
       nearEv == IF F.kind = "rule" THEN {e \in RuleEvents(F, YearOf(L)) : Le(Shift(lo, -1), e.at) /\ Le(e.at, Shift(hi, 1))} ELSE {}
-  IN IF NT(Z) = 0 THEN (IF HasFooter(Z) THEN "no-transitions-footer/" \o RuleShape(F) ELSE "no-transitions")
+      \* where the reading sits relative to the rule transitions of the footer
+      footerPos == RuleShape(F) \o RuleKindTag(F)
+                   \o (IF F.kind # "rule" THEN ""
+                       ELSE IF nearEv # {} THEN (IF \E e \in nearEv : e.toDst THEN "/near-rule-start" ELSE "/near-rule-end")
+                       ELSE (IF InDst(F, lo) THEN "/in-dst" ELSE "/in-std") \o RuleMonth(F, lo))
+  IN IF NT(Z) = 0 THEN (IF HasFooter(Z) THEN "no-transitions-footer/" \o footerPos ELSE "no-transitions")
      ELSE IF near # {} THEN LET i == MinS(near) IN
             "near-transition/" \o TransKind(Z, i) \o (IF i = 1 THEN "/first" ELSE IF i = NT(Z) THEN "/last" ELSE "")
+            \* more than one table transition can bear on the reading (transitions closer together than the zone's offsets span)
+            \o (IF Cardinality(near) > 1 THEN "/several-transitions" ELSE "")
+            \* a rule transition of the footer, after the last table transition, can bear on the reading as well
+            \o (IF \E e \in nearEv : Lt(Pt(Z.trans[NT(Z)]), e.at) THEN "/and-rule-transition" ELSE "")
      ELSE IF Lt(hi, Pt(Z.trans[1])) THEN "before-first"
      ELSE IF Lt(Pt(Z.trans[NT(Z)]), lo) THEN
             (IF ~HasFooter(Z) THEN "after-last"
-             ELSE "after-last-footer/" \o RuleShape(F)
-                  \o (IF F.kind # "rule" THEN ""
-                      ELSE IF nearEv # {} THEN (IF \E e \in nearEv : e.toDst THEN "/near-rule-start" ELSE "/near-rule-end")
-                      ELSE (IF InDst(F, lo) THEN "/in-dst" ELSE "/in-std") \o RuleMonth(F, lo)))
+             \* a rule transition lies between the end of the table and the reading, which is less than 26 h (the bound RFC 8536
+             \* recommends for offsets, and the reach of a table lookup) after the last table transition: one label whatever the rule
+             ELSE IF F.kind = "rule" /\ Le(L, Shift(Pt(Z.trans[NT(Z)]), 93600))
+                     /\ \E e \in RuleEvents(F, YearOf(L)) : Lt(Pt(Z.trans[NT(Z)]), e.at) /\ Le(e.at, Shift(hi, 1))
+                  THEN "after-last-footer/table-end-within-26h"
+             ELSE "after-last-footer/" \o footerPos)
      ELSE IF Idx(Z, hi) = 1 THEN "between/first-interval"
      ELSE "between"
 LocalCls(Z, L, ns) ==
